@@ -10,8 +10,11 @@ import (
 	"reflect"
 	"strconv"
 
+	"github.com/sergeii/swat4master/internal/core/entities/details"
 	ds "github.com/sergeii/swat4master/internal/core/entities/discovery/status"
 	"github.com/sergeii/swat4master/internal/core/entities/probe"
+	"github.com/sergeii/swat4master/internal/core/entities/server"
+	"github.com/sergeii/swat4master/internal/rest/api"
 	"github.com/sergeii/swat4master/internal/rest/model"
 	"github.com/sergeii/swat4master/verifharness/internal/facts"
 )
@@ -20,7 +23,30 @@ import (
 //   - the binding tags of model.NewServer (reflection),
 //   - the discovery status bits the REST handlers look at and probe.GoalPort (compiled constants),
 //   - every string literal of pkg/swat/styles/styles.go in source order (go/ast): the four regular
-//     expressions, the span template and the empty replacements.
+//     expressions, the span template and the empty replacements,
+//   - the json tags, Go field names and kinds of model.Server, model.ServerPlayer, model.ServerObjective and
+//     model.ServerDetail and the form tags of api.ServerFilterForm, in field order (reflection),
+//   - the String() renderings of PlayerTeam, PlayerCoopStatus, ObjectiveStatus for -2..8 (compiled methods),
+//   - slug.Make as model.NewServerFromDomain applies it, observed through that function: the image of "x<c>y" for
+//     every code point c of Latin-1 and for the five code points of slug's defaultSub beyond Latin-1, and of a few
+//     whole strings (trimming, collapsing, no length limit).
+func jsonTags(w io.Writer, name string, t reflect.Type) {
+	var tags, fields, kinds []string
+	for i := 0; i < t.NumField(); i++ {
+		f := t.Field(i)
+		tags = append(tags, f.Tag.Get("json"))
+		fields = append(fields, f.Name)
+		kinds = append(kinds, f.Type.Kind().String())
+	}
+	fmt.Fprintf(w, "def rest%sJsonTags : List String := %s\n", name, facts.LeanStrList(tags))
+	fmt.Fprintf(w, "def rest%sGoFields : List String := %s\n", name, facts.LeanStrList(fields))
+	fmt.Fprintf(w, "def rest%sKinds : List String := %s\n", name, facts.LeanStrList(kinds))
+}
+
+func slugOf(s string) string {
+	return model.NewServerFromDomain(server.Server{Info: details.Info{GameType: s}}).GameTypeSlug
+}
+
 func init() {
 	facts.Add("c17rest", func(w io.Writer, repo string) error {
 		t := reflect.TypeOf(model.NewServer{})
@@ -31,6 +57,7 @@ func init() {
 			fmt.Fprintf(w, "def restNewServer%sKind : String := %s\n", f.Name, facts.LeanStr(f.Type.Kind().String()))
 		}
 		fmt.Fprintf(w, "def restNewServerNumField : Nat := %d\n", t.NumField())
+		fmt.Fprintf(w, "def restDsInfo : Nat := %d\n", int(ds.Info))
 		fmt.Fprintf(w, "def restDsNew : Nat := %d\ndef restDsDetails : Nat := %d\ndef restDsDetailsRetry : Nat := %d\ndef restDsPortRetry : Nat := %d\ndef restDsNoPort : Nat := %d\n",
 			int(ds.New), int(ds.Details), int(ds.DetailsRetry), int(ds.PortRetry), int(ds.NoPort))
 		fmt.Fprintf(w, "def restGoalPort : Nat := %d\n", int(probe.GoalPort))
@@ -53,6 +80,57 @@ func init() {
 			return true
 		})
 		fmt.Fprintf(w, "def stylesStringLiterals : List String := %s\n", facts.LeanStrList(lits))
+
+		jsonTags(w, "Server", reflect.TypeOf(model.Server{}))
+		jsonTags(w, "ServerPlayer", reflect.TypeOf(model.ServerPlayer{}))
+		jsonTags(w, "ServerObjective", reflect.TypeOf(model.ServerObjective{}))
+		jsonTags(w, "ServerDetail", reflect.TypeOf(model.ServerDetail{}))
+		ft := reflect.TypeOf(api.ServerFilterForm{})
+		var forms, fkinds []string
+		for i := 0; i < ft.NumField(); i++ {
+			forms = append(forms, ft.Field(i).Tag.Get("form"))
+			fkinds = append(fkinds, ft.Field(i).Type.Kind().String())
+		}
+		fmt.Fprintf(w, "def restFilterFormTags : List String := %s\n", facts.LeanStrList(forms))
+		fmt.Fprintf(w, "def restFilterFormKinds : List String := %s\n", facts.LeanStrList(fkinds))
+
+		var teams, coops, objs []string
+		for v := -2; v <= 8; v++ {
+			teams = append(teams, details.PlayerTeam(v).String())
+			coops = append(coops, details.PlayerCoopStatus(v).String())
+			objs = append(objs, details.ObjectiveStatus(v).String())
+		}
+		fmt.Fprintf(w, "/-- String() of the values -2..8 -/\n")
+		fmt.Fprintf(w, "def restTeamStrings : List String := %s\n", facts.LeanStrList(teams))
+		fmt.Fprintf(w, "def restCoopStatusStrings : List String := %s\n", facts.LeanStrList(coops))
+		fmt.Fprintf(w, "def restObjectiveStatusStrings : List String := %s\n", facts.LeanStrList(objs))
+
+		var latin1 []string
+		for c := 0; c < 0x100; c++ {
+			latin1 = append(latin1, slugOf("x"+string(rune(c))+"y"))
+		}
+		fmt.Fprintf(w, "/-- gametype_slug for the game type \"x<c>y\", c = U+0000..U+00FF -/\n")
+		fmt.Fprintf(w, "def restSlugLatin1 : List String := %s\n", facts.LeanStrList(latin1))
+		var special []string
+		for _, c := range []rune{0x2012, 0x2013, 0x2014, 0x2015, 0x2019, 0x10000, 0x1F600} {
+			special = append(special, slugOf("x"+string(c)+"y"))
+		}
+		fmt.Fprintf(w, "/-- the same for U+2012..U+2015, U+2019, U+10000, U+1F600 -/\n")
+		fmt.Fprintf(w, "def restSlugSpecial : List String := %s\n", facts.LeanStrList(special))
+		var whole []string
+		for _, s := range slugProbes {
+			whole = append(whole, slugOf(s))
+		}
+		fmt.Fprintf(w, "def restSlugProbes : List String := %s\n", facts.LeanStrList(slugProbes))
+		fmt.Fprintf(w, "def restSlugProbeResults : List String := %s\n", facts.LeanStrList(whole))
 		return nil
 	})
+}
+
+// whole strings through slug.Make: white space and separators at the ends, runs, the spelled-out characters, quotes,
+// a string longer than any plausible MaxLength (no truncation), underscores (kept inside, trimmed at the ends)
+var slugProbes = []string{
+	"", "  VIP Escort\t", "-Ex-", "__x__", "_-_", "a--b", "a - b", "a_b", "R&D", "me@home", "it's \"q\"", "CO-OP QMM",
+	"Qwik Fuel Convenience Store", "\u00a0x\u00a0", "0123456789 0123456789 0123456789 0123456789 0123456789 0123456789 0123456789 0123456789",
+	"In Progress", "Incapacitated", "-3", "unknown",
 }
